@@ -312,6 +312,12 @@ func c17exec(j run.Job, a *run.Acc) {
 				if !f.judged && n > 64 {
 					continue // information only: cubic work with long result lists, not worth the minutes
 				}
+				if strings.HasPrefix(f.name, "optional unary minus") && n > 128 {
+					// pure nesting deeper than ~380 brackets exhausts the 1 GB goroutine stack on the unchanged tree
+					// (known finding K2 of C02: recursion depth grows with the square of the nesting depth); that is
+					// C02's subject, here the family stops at 2n = 256
+					continue
+				}
 				if !a.Begin() {
 					continue
 				}
